@@ -34,7 +34,7 @@ inductive Mask
   | intStack (planes : List (List (List Nat)))
   | fltLabel (planes : List (List Rat))
   | fltStack (planes : List (List (List Rat)))
-  deriving Repr, Inhabited
+  deriving Repr, Inhabited, DecidableEq
 
 def Mask.numPlanes : Mask → Nat
   | .intLabel p => p.length | .intStack p => p.length | .fltLabel p => p.length | .fltStack p => p.length
@@ -106,13 +106,16 @@ def sumNat (l : List Nat) : Nat := l.foldl (· + ·) 0
 /-- `np.argmax` of a non-empty list: index of the first maximum -/
 def argmax (l : List Nat) : Nat := l.idxOf (listMax l)
 
-/-- `_combine_segments` for one pixel (channel values 0/1), followed by the look-up that replaces the
-channel position by the described segment number -/
+/-- `_combine_segments` for one pixel (channel values 0/1): `argmax + 1` where any channel is set, else 0;
+    a single channel is taken as it is -/
+def stackLabel (ch : List Nat) : Nat :=
+  match ch with
+  | [v] => v
+  | _ => (argmax ch + 1) * listMax ch
+
+/-- ... followed by the look-up that replaces the channel position by the described segment number -/
 def combinePixel (segs : List Nat) (ch : List Nat) : Except ErrKind Nat :=
-  let lab := match ch with
-    | [v] => v
-    | _ => (argmax ch + 1) * listMax ch
-  match (0 :: segs)[lab]? with
+  match (0 :: segs)[stackLabel ch]? with
   | some v => .ok v
   | none => .error .index
 
@@ -125,46 +128,61 @@ def overlapOfStack (n : Nat) (planes : List (List (List Nat))) : Overlap :=
   else if n = 1 then .no
   else if planes.any (fun pl => pl.any (fun ch => sumNat ch > 1)) then .yes else .no
 
-/-- Result: the array the rest of the constructor works with, and `SegmentsOverlap`. -/
-def castMask (segs : List Nat) (t : SegType) (m : Mask) : Except ErrKind (Mask × Overlap) := do
+/-- 4-D input: the last dimension must match the number of described segments -/
+def chanOk (n : Nat) : Mask → Bool
+  | .intStack ps => ps.all (fun pl => pl.all (fun ch => ch.length == n))
+  | .fltStack ps => ps.all (fun pl => pl.all (fun ch => ch.length == n))
+  | _ => true
+
+/-- label-map style input: does a pixel value lack a description?  (fast path on the maximum when the described
+    numbers are exactly 1..n, set difference otherwise) -/
+def undescribed (segs : List Nat) (ps : List (List Nat)) : Bool :=
   let n := segs.length
-  -- 4-D: the last dimension must match the number of described segments
-  let chanOk : Bool := match m with
-    | .intStack ps => ps.all (fun pl => pl.all (fun ch => ch.length == n))
-    | .fltStack ps => ps.all (fun pl => pl.all (fun ch => ch.length == n))
-    | _ => true
-  if ¬ chanOk then .error .value
-  if m.numPlanes = 0 ∨ m.planeSizes.any (· == 0) then .error .value     -- `.max()` of an empty array
-  let (arr, ov) ← (match m with
-    | .intLabel ps =>
-      let consecutive := (List.range' 1 n).all (· ∈ segs) && segs.all (fun s => 1 ≤ s && s ≤ n)
-      let undescribed :=
-        if consecutive then listMax (ps.map listMax) > n
-        else ps.any (fun pl => pl.any (fun v => ¬ (v ∈ (0 :: segs))))
-      if undescribed then .error .value else .ok (Mask.intLabel ps, Overlap.no)
-    | .intStack ps =>
-      if listMax (ps.map fun pl => listMax (pl.map listMax)) > 1 then .error .value
-      else .ok (Mask.intStack ps, overlapOfStack n ps)
-    | .fltLabel ps =>
-      if ps.any (fun pl => pl.any (fun x => x < 0 ∨ 1 < x)) then .error .value
-      else if t = .fractional then .ok (Mask.fltLabel ps, Overlap.no)
-      else if ps.any (fun pl => pl.any (fun x => 0 < x ∧ x < 1)) then .error .value
-      else .ok (Mask.intLabel (ps.map (·.map ratToNat)), Overlap.no)
-    | .fltStack ps =>
-      if ps.any (fun pl => pl.any (fun ch => ch.any (fun x => x < 0 ∨ 1 < x))) then .error .value
-      else if t = .fractional then .ok (Mask.fltStack ps, if n = 1 then Overlap.no else Overlap.undefined)
-      else if ps.any (fun pl => pl.any (fun ch => ch.any (fun x => 0 < x ∧ x < 1))) then .error .value
-      else
-        let ips := ps.map (·.map (·.map ratToNat))
-        .ok (Mask.intStack ips, overlapOfStack n ips) : Except ErrKind (Mask × Overlap))
+  let consecutive := (List.range' 1 n).all (· ∈ segs) && segs.all (fun s => 1 ≤ s && s ≤ n)
+  if consecutive then decide (listMax (ps.map listMax) > n)
+  else ps.any (fun pl => pl.any (fun v => ¬ (v ∈ (0 :: segs))))
+
+/-- the dtype-specific part: value checks, float → integer cast for BINARY / LABELMAP, overlap -/
+def castValues (segs : List Nat) (t : SegType) : Mask → Except ErrKind (Mask × Overlap)
+  | .intLabel ps =>
+    if undescribed segs ps then .error .value else .ok (Mask.intLabel ps, Overlap.no)
+  | .intStack ps =>
+    if listMax (ps.map fun pl => listMax (pl.map listMax)) > 1 then .error .value
+    else .ok (Mask.intStack ps, overlapOfStack segs.length ps)
+  | .fltLabel ps =>
+    if ps.any (fun pl => pl.any (fun x => x < 0 ∨ 1 < x)) then .error .value
+    else if t = .fractional then .ok (Mask.fltLabel ps, Overlap.no)
+    else if ps.any (fun pl => pl.any (fun x => 0 < x ∧ x < 1)) then .error .value
+    else .ok (Mask.intLabel (ps.map (·.map ratToNat)), Overlap.no)
+  | .fltStack ps =>
+    if ps.any (fun pl => pl.any (fun ch => ch.any (fun x => x < 0 ∨ 1 < x))) then .error .value
+    else if t = .fractional then
+      .ok (Mask.fltStack ps, if segs.length = 1 then Overlap.no else Overlap.undefined)
+    else if ps.any (fun pl => pl.any (fun ch => ch.any (fun x => 0 < x ∧ x < 1))) then .error .value
+    else
+      let ips := ps.map (·.map (·.map ratToNat))
+      .ok (Mask.intStack ips, overlapOfStack segs.length ips)
+
+/-- the LABELMAP part: overlapping segments are refused, stacked segments are combined into one label map
+    holding the *described* segment numbers -/
+def castLabelmap (segs : List Nat) (t : SegType) (r : Mask × Overlap) : Except ErrKind (Mask × Overlap) :=
   if t = .labelmap then
-    if ov = .yes then .error .value
-    match arr with
-    | .intStack ps =>
-      let lab ← mapE (fun pl => mapE (combinePixel segs) pl) ps
-      pure (Mask.intLabel lab, ov)
-    | other => pure (other, ov)
-  else pure (arr, ov)
+    if r.2 = .yes then .error .value
+    else match r.1 with
+      | .intStack ps =>
+        match mapE (fun pl => mapE (combinePixel segs) pl) ps with
+        | .ok lab => .ok (Mask.intLabel lab, r.2)
+        | .error e => .error e
+      | other => .ok (other, r.2)
+  else .ok r
+
+/-- Result: the array the rest of the constructor works with, and `SegmentsOverlap`. -/
+def castMask (segs : List Nat) (t : SegType) (m : Mask) : Except ErrKind (Mask × Overlap) :=
+  if ¬ chanOk segs.length m then .error .value
+  else if m.numPlanes = 0 ∨ m.planeSizes.any (· == 0) then .error .value     -- `.max()` of an empty array
+  else match castValues segs t m with
+    | .error e => .error e
+    | .ok r => castLabelmap segs t r
 
 /-! ## planes of the cast array -/
 
@@ -174,7 +192,7 @@ inductive Plane
   | intStack (px : List (List Nat))
   | fltLabel (px : List Rat)
   | fltStack (px : List (List Rat))
-  deriving Repr, Inhabited
+  deriving Repr, Inhabited, DecidableEq
 
 def Mask.plane? : Mask → Nat → Option Plane
   | .intLabel ps, i => ps[i]?.map .intLabel
@@ -189,20 +207,31 @@ def Plane.any : Plane → Bool
   | .fltLabel px => px.any (· != 0)
   | .fltStack px => px.any (fun ch => ch.any (· != 0))
 
+/-- `pixel_array[:, :, k]` of one plane of a stacked array -/
+def channel {α} (k : Nat) (px : List (List α)) : Except ErrKind (List α) :=
+  mapE (fun ch => match ch[k]? with
+    | some v => .ok v
+    | none => .error .index) px
+
+/-- stretch binary values to the fractional range: `segment_array * max_fractional_value`, skipped when it is 1 -/
+def stretch (t : SegType) (mfv : Nat) (b : List Nat) : List Nat :=
+  if t = .fractional ∧ mfv ≠ 1 then b.map (· * mfv) else b
+
+/-- `np.around(x * float(max_fractional_value)).astype(uint8)` -/
+def quantise (mfv : Nat) (x : Rat) : Nat := (roundHalfEven (x * (mfv : Rat))).toNat
+
 /-- `_get_segment_pixel_array`: the stored pixels of segment `s` in one plane -/
 def segPlane (segs : List Nat) (t : SegType) (mfv : Nat) (s : Nat) : Plane → Except ErrKind (List Nat)
-  | .fltStack px => mapE (fun ch => match ch[s - 1]? with
-      | some x => .ok (roundHalfEven (x * (mfv : Rat))).toNat
-      | none => .error .index) px
-  | .fltLabel px => .ok (px.map fun x => (roundHalfEven (x * (mfv : Rat))).toNat)
+  | .fltStack px => do
+      let a ← channel (s - 1) px
+      pure (a.map (quantise mfv))
+  | .fltLabel px => .ok (px.map (quantise mfv))
   | .intLabel px =>
       let b := if segs = [1] then px else px.map (fun v => if v = s then 1 else 0)
-      .ok (if t = .fractional ∧ mfv ≠ 1 then b.map (· * mfv) else b)
+      .ok (stretch t mfv b)
   | .intStack px => do
-      let b ← mapE (fun ch => match ch[s - 1]? with
-        | some v => .ok v
-        | none => .error .index) px
-      pure (if t = .fractional ∧ mfv ≠ 1 then b.map (· * mfv) else b)
+      let b ← channel (s - 1) px
+      pure (stretch t mfv b)
 
 /-- stored pixels of a whole LABELMAP plane (no per-segment extraction) -/
 def labelPlane : Plane → Except ErrKind (List Nat)
@@ -217,12 +246,17 @@ structure Frame where
   px : List Nat
   deriving Repr, DecidableEq, Inhabited
 
+/-- `np.any(pixel_array[i])` -/
+def planeNonEmpty (arr : Mask) (i : Nat) : Bool :=
+  match arr.plane? i with
+  | some pl => pl.any
+  | none => false
+
 /-- `_get_nonempty_plane_indices` + the re-filtering of `plane_sort_index`:
     returns (omit_empty_frames after the "all empty" fallback, planes to visit in order) -/
 def planOrder (arr : Mask) (omt : Bool) (order : List Nat) : Bool × List Nat :=
   if omt then
-    let nonempty := (List.range arr.numPlanes).filter fun i => match arr.plane? i with
-      | some pl => pl.any | none => false
+    let nonempty := (List.range arr.numPlanes).filter (planeNonEmpty arr)
     if nonempty = [] then (false, order) else (true, order.filter (· ∈ nonempty))
   else (false, order)
 
@@ -328,21 +362,36 @@ def encodePixelData (codec : Option Codec) (rows cols bits : Nat) (frames : List
     let pd ← padEven raw
     pure (.native pd)
 
-/-- `Segmentation.__init__` as far as pixels and per-frame references go.  `nsrc` = number of source
-planes, `order` = `plane_sort_index`. -/
+/-- argument checks that do not look at the pixels; result: BitsAllocated -/
+def checkArgs (codec : Option Codec) (t : SegType) (segs : List Nat) (mfv : Nat) : Except ErrKind Nat :=
+  match checkSegs t segs with
+  | .error e => .error e
+  | .ok _ =>
+    match (if t = .fractional then segMfvGuard mfv else .ok 0) with
+    | .error e => .error e
+    | .ok _ =>
+      if codec.isSome ∧ t = .binary then .error .value       -- encapsulated syntaxes are refused for BINARY
+      else bitsFor t segs
+
+/-- `Segmentation.__init__` as far as pixels and per-frame references go.  `order` = `plane_sort_index`
+    (one entry per source plane). -/
 def build (codec : Option Codec) (rows cols : Nat) (t : SegType) (segs : List Nat) (mfv : Nat) (omt : Bool)
-    (order : List Nat) (m : Mask) : Except ErrKind SegObj := do
-  checkSegs t segs
-  if t = .fractional then
-    let _ ← segMfvGuard mfv
-  if codec.isSome ∧ t = .binary then .error .value       -- encapsulated syntaxes are refused for BINARY
-  let bits ← bitsFor t segs
-  let (arr, _) ← castMask segs t m
-  if m.numPlanes ≠ order.length then .error .value
-  if m.planeSizes.any (· != rows * cols) then .error .value
-  let frames ← storedFrames arr segs t mfv omt order
-  let pd ← encodePixelData codec rows cols bits (frames.map (·.px))
-  pure { rows, cols, bits, t, mfv, segs, keys := frames.map (fun f => (f.seg, f.plane)), pd }
+    (order : List Nat) (m : Mask) : Except ErrKind SegObj :=
+  match checkArgs codec t segs mfv with
+  | .error e => .error e
+  | .ok bits =>
+    match castMask segs t m with
+    | .error e => .error e
+    | .ok r =>
+      if m.numPlanes ≠ order.length then .error .value
+      else if m.planeSizes.any (· != rows * cols) then .error .value
+      else
+        match storedFrames r.1 segs t mfv omt order with
+        | .error e => .error e
+        | .ok frames =>
+          match encodePixelData codec rows cols bits (frames.map (·.px)) with
+          | .error e => .error e
+          | .ok pd => .ok { rows, cols, bits, t, mfv, segs, keys := frames.map (fun f => (f.seg, f.plane)), pd }
 
 /-! ## reading back -/
 
@@ -362,23 +411,28 @@ def readFrame (codec : Option Codec) (o : SegObj) (i : Nat) : Except ErrKind (Li
     | some c, some f => .ok (c.dec f)
     | _, _ => .error .index
 
+/-- pixels delivered for the LUT key `k` = (segment, source plane): the matching frame, or zeros where the
+    join finds no frame (`assert_missing_frames_are_empty` / an omitted empty frame) -/
+def readKey (codec : Option Codec) (o : SegObj) (k : Option Nat × Nat) : Except ErrKind (List Nat) :=
+  match findKey o.keys k with
+  | some i => readFrame codec o i
+  | none => .ok (List.replicate (o.rows * o.cols) 0)
+
+/-- one requested source plane: per described segment the pixel list (LABELMAP: one-hot expansion of the label frame) -/
+def readRow (codec : Option Codec) (o : SegObj) (p : Nat) : Except ErrKind (List (List Nat)) :=
+  if o.t = .labelmap then
+    match readKey codec o (none, p) with
+    | .error e => .error e
+    | .ok lab => .ok (o.segs.map fun s => lab.map fun v => if v = s then 1 else 0)
+  else mapE (fun s => readKey codec o (some s, p)) o.segs
+
 /-- `get_pixels_by_source_instance` / `get_pixels_by_source_frame` with `rescale_fractional=False`:
     result indexed [requested source][segment][pixel]. -/
 def readBySource (codec : Option Codec) (o : SegObj) (request : List Nat) (allowMissing : Bool) :
-    Except ErrKind (List (List (List Nat))) := do
+    Except ErrKind (List (List (List Nat))) :=
   if ¬ o.keys.Nodup then .error .runtime                 -- columns do not identify unique frames
-  if ¬ allowMissing ∧ request.any (fun p => ¬ (p ∈ o.keys.map (·.2))) then .error .key
-  let n := o.rows * o.cols
-  mapE (fun p =>
-    if o.t = .labelmap then do
-      let lab ← match findKey o.keys (none, p) with
-        | some i => readFrame codec o i
-        | none => pure (List.replicate n 0)
-      pure (o.segs.map fun s => lab.map fun v => if v = s then 1 else 0)
-    else
-      mapE (fun s => match findKey o.keys (some s, p) with
-        | some i => readFrame codec o i
-        | none => pure (List.replicate n 0)) o.segs) request
+  else if ¬ allowMissing ∧ request.any (fun p => ¬ (p ∈ o.keys.map (·.2))) then .error .key
+  else mapE (readRow codec o) request
 
 /-- construct, then read the planes `request` back -/
 def roundtrip (codec : Option Codec) (rows cols : Nat) (t : SegType) (segs : List Nat) (mfv : Nat) (omt : Bool)
@@ -387,18 +441,30 @@ def roundtrip (codec : Option Codec) (rows cols : Nat) (t : SegType) (segs : Lis
   let o ← build codec rows cols t segs mfv omt order m
   readBySource codec o request allowMissing
 
+/-! ## encoding workers -/
+
+/-- `frames = [fut.result() for fut in frame_futures]`: future number `i` (submission order) is looked up in
+    the log of completed work `done`, whatever order the workers finished in -/
+def collect {β} (n : Nat) (done : List (Nat × β)) : Option (List β) :=
+  mapO (fun i => (done.find? (fun d => d.1 == i)).map (·.2)) (List.range' 0 n)
+
 /-! ## the property's own statement (independent of the functions above) -/
 
-/-- what segment `s` (at position `j` of the described segments) must read back as, pixel by pixel;
-`none` when a pixel of a stacked mask has no channel `j` (excluded by the shape check) -/
+/-- channel `j` of every pixel of a stacked plane; `none` if a pixel has no channel `j` -/
+def chanO {α} (j : Nat) (px : List (List α)) : Option (List α) := mapO (·[j]?) px
+
+/-- What segment `s`, described at position `j`, must read back as, pixel by pixel -- the property's own
+statement: the indicator of the segment (times `max_fractional_value` for FRACTIONAL) for integer/bool input,
+the quantised fraction for float input of a FRACTIONAL segmentation.  (`none`: a pixel of a stacked mask has no
+channel `j`, excluded by the shape check.) -/
 def expectedPlane (t : SegType) (mfv : Nat) (j s : Nat) : Plane → Option (List Nat)
   | .intLabel px => some (px.map fun v => if v = s then (if t = .fractional then mfv else 1) else 0)
-  | .intStack px => mapO (fun ch => ch[j]?.map fun v => v * (if t = .fractional then mfv else 1)) px
+  | .intStack px => (chanO j px).map fun a => a.map fun v => v * (if t = .fractional then mfv else 1)
   | .fltLabel px =>
-      if t = .fractional then some (px.map fun x => (roundHalfEven (x * (mfv : Rat))).toNat)
-      else some (px.map fun x => if x = 1 ∧ s = 1 then 1 else 0)
+      if t = .fractional then some (px.map (quantise mfv))
+      else some (px.map fun x => if x = 1 ∧ s = 1 then 1 else 0)     -- a binary 3-D float mask is segment number 1
   | .fltStack px =>
-      if t = .fractional then mapO (fun ch => ch[j]?.map fun x => (roundHalfEven (x * (mfv : Rat))).toNat) px
-      else mapO (fun ch => ch[j]?.map fun x => if x = 1 then 1 else 0) px
+      if t = .fractional then (chanO j px).map fun a => a.map (quantise mfv)
+      else (chanO j px).map fun a => a.map fun x => if x = 1 then 1 else 0
 
 end HdVerif.SegEncode
